@@ -5,6 +5,7 @@ mod c02;
 mod c03;
 mod c04;
 mod c06;
+mod c07f;
 mod c09;
 mod c10;
 mod c11;
